@@ -265,7 +265,9 @@ impl<'a, T: AsRef<str>> Tokenizer<'a, T> {
         }
 
         if let Some(pos) = latest_pos {
-            if let Ok(number) = digits.parse::<f64>() {
+            // A numeral too large for a number is not a number we can store:
+            // it would be listed as `inf`, which does not read back.
+            if let Some(number) = digits.parse::<f64>().ok().filter(|n| n.is_finite()) {
                 self.index += pos;
                 Some(Ok(Token::NumericLiteral(number)))
             } else {
